@@ -12,7 +12,16 @@
 //!   upgrade <i> force=<0|1> start=<0|1> ver=<v> ct=<0|1> faults=<bits|->
 //!   refresh            (partial refresh, service-based network: what every antctl command runs first)
 //!   kill <i>           (the process of service i dies behind the manager's back)
+//!   die-outside <i>    (alias of kill)
+//!   restart-outside <i> (the process of service i dies and comes back under a NEW pid without the manager: service
+//!                       manager auto-restart / crash + restart; no-op if the service has no process)
+//!   refresh-full       (`refresh_node_registry(.., full_refresh = true)` as `antctl status` calls it; it builds a real
+//!                       RpcClient itself and no node RPC endpoint is served here, so it fails with RpcConnectionError
+//!                       at the first service whose process is alive, after the client's 1 s retry delay)
 //!   flaky <i> <0|1>    (while set, the OS "starts" service i successfully but no process appears)
+//! The fake node RPC answers `network_info` deterministically from the pid: (pid+2)%3 = 0 -> no connected peers,
+//! 1 -> one peer, 2 -> forty peers; pid%7 = 3 -> no listeners (then node_port is not updated). The dump shows the
+//! recorded peer count as `cp=<n|->`.
 //!   saveload           (registry := load(save(registry)))
 //!   reload             (drop the in-memory registry and continue from the registry FILE: the next antctl invocation)
 //! The registry file is written only by the code under test and by the harness where it plays the operation's caller
@@ -20,7 +29,7 @@
 //! the outcome, a bare `refresh` does not save. `add_node` itself saves after every completed install.
 //! Output: `<result> calls=<k> | R <svc>* | F <svc>* | OS inst=[..] procs=[..] dirs=[..] np=<next pid> npt=<next port>`
 //!   (R = in-memory registry, F = the registry file as left on disk, loaded without any harness save in between)
-//!   svc = `<name#>/<number>/<dir#>:<A|R|S|X>:pid=<p|->:np=<p|->:mp=<p|->:rp=<p>:v=<ver>`
+//!   svc = `<name#>/<number>/<dir#>:<A|R|S|X>:pid=<p|->:np=<p|->:mp=<p|->:rp=<p>:v=<ver>:cp=<n|->`
 //!
 //! Simulated OS semantics (Linux/systemd-like; trusted base): `install` (over)writes a service definition;
 //! `start` needs a definition, is a no-op if the service's process is alive, else spawns a process with a fresh pid
@@ -202,7 +211,9 @@ impl RpcActions for Rpc {
         }
         let Some(p) = self.alive(&os) else { return Err(SvcError::RpcConnectionError("down".into())) };
         let addr: Multiaddr = format!("/ip4/127.0.0.1/udp/{}/quic-v1", p.port).parse().expect("multiaddr");
-        Ok(NetworkInfo { connected_peers: vec![PeerId::random()], listeners: vec![addr] })
+        let n_peers = match (p.pid + 2) % 3 { 0 => 0, 1 => 1, _ => 40 };
+        let listeners = if p.pid % 7 == 3 { vec![] } else { vec![addr] };
+        Ok(NetworkInfo { connected_peers: (0..n_peers).map(|_| PeerId::random()).collect(), listeners })
     }
     async fn record_addresses(&self) -> Result<Vec<RecordAddress>, SvcError> {
         Ok(vec![])
@@ -238,11 +249,14 @@ struct World {
     tmp: tempfile::TempDir,
     reg: NodeRegistry,
     os: Arc<Mutex<SimOs>>,
-    rt: tokio::runtime::Runtime,
+    rt: std::rc::Rc<tokio::runtime::Runtime>,
     killed: bool,
+    /// an outside event (kill / restart-outside) happened and the file has not been saved from a refreshed registry
+    /// since: a `reload` brings the stale records back
+    file_stale: bool,
 }
 impl World {
-    fn new() -> World {
+    fn new(rt: std::rc::Rc<tokio::runtime::Runtime>) -> World {
         let tmp = tempfile::tempdir().expect("tempdir");
         std::fs::write(tmp.path().join("antnode"), b"bin-v0").expect("src bin");
         std::fs::write(tmp.path().join("antnode-new"), b"bin-new").expect("new bin");
@@ -251,8 +265,9 @@ impl World {
             tmp,
             reg,
             os: Arc::new(Mutex::new(SimOs::new())),
-            rt: tokio::runtime::Builder::new_current_thread().enable_all().build().expect("rt"),
+            rt,
             killed: false,
+            file_stale: false,
         }
     }
     fn data_base(&self) -> PathBuf {
@@ -289,7 +304,7 @@ fn dump_nodes(nodes: &[ant_service_management::NodeServiceData]) -> String {
         };
         let dir = n.data_dir_path.file_name().map(|f| f.to_string_lossy().to_string()).unwrap_or_default();
         s.push_str(&format!(
-            " {}/{}/{}:{}:pid={}:np={}:mp={}:rp={}:v={}",
+            " {}/{}/{}:{}:pid={}:np={}:mp={}:rp={}:v={}:cp={}",
             num_suffix(&n.service_name),
             n.number,
             num_suffix(&dir),
@@ -298,17 +313,18 @@ fn dump_nodes(nodes: &[ant_service_management::NodeServiceData]) -> String {
             opt(n.node_port),
             opt(n.metrics_port),
             n.rpc_socket_addr.port(),
-            ver_of(&n.version)
+            ver_of(&n.version),
+            opt(n.connected_peers.as_ref().map(|p| p.len()))
         ));
     }
     s
 }
 
-fn dump(w: &World) -> String {
+fn dump(w: &World, file: &Result<NodeRegistry, String>) -> String {
     let mut s = String::from("R");
     s.push_str(&dump_nodes(&w.reg.nodes));
     s.push_str(" | F");
-    match load_file(w) {
+    match file {
         Ok(f) => s.push_str(&dump_nodes(&f.nodes)),
         Err(_) => s.push_str(" ?unreadable"),
     }
@@ -479,7 +495,7 @@ fn exec_op(w: &mut World, ws: &[&str]) -> String {
             let name = w.reg.nodes[i].service_name.clone();
             let rpc = Rpc { os: w.os.clone(), name };
             let ct = kv(rest, "ct").and_then(b01).unwrap_or(false);
-            let rt = &w.rt;
+            let rt = w.rt.clone();
             let tmp_path = w.tmp.path().to_path_buf();
             let node = &mut w.reg.nodes[i];
             let service = NodeService::new(node, Box::new(rpc));
@@ -554,7 +570,33 @@ fn exec_op(w: &mut World, ws: &[&str]) -> String {
             }
             Err(e) => format!("err:{}", mgr_err(&e)),
         },
-        ["kill", i] => {
+        ["restart-outside", i] => {
+            let Ok(i) = i.parse::<usize>() else { return "bad-op".into() };
+            if i >= w.reg.nodes.len() {
+                return "err:no-such-service".into();
+            }
+            let name = w.reg.nodes[i].service_name.clone();
+            let mut os = w.os.lock().unwrap();
+            if let Some(old) = os.procs.iter().find(|p| p.name == name).cloned() {
+                os.procs.retain(|p| p.name != name);
+                let pid = os.next_pid;
+                os.next_pid += 1;
+                let port = os.installed.get(&name).and_then(|i| i.port).unwrap_or(40000 + pid as u16);
+                os.procs.push(Proc { pid, name: name.clone(), exe: old.exe, port });
+                drop(os);
+                w.killed = true;
+                w.file_stale = true;
+            }
+            "ok".into()
+        }
+        ["refresh-full"] => match w.rt.block_on(refresh_node_registry(&mut w.reg, &ctl, false, true, false)) {
+            Ok(()) => {
+                w.killed = false;
+                "ok".into()
+            }
+            Err(e) => format!("err:{}", mgr_err(&e)),
+        },
+        ["kill", i] | ["die-outside", i] => {
             let Ok(i) = i.parse::<usize>() else { return "bad-op".into() };
             if i >= w.reg.nodes.len() {
                 return "err:no-such-service".into();
@@ -562,6 +604,7 @@ fn exec_op(w: &mut World, ws: &[&str]) -> String {
             let name = w.reg.nodes[i].service_name.clone();
             w.os.lock().unwrap().procs.retain(|p| p.name != name);
             w.killed = true;
+            w.file_stale = true;
             "ok".into()
         }
         ["flaky", i, b] => {
@@ -577,6 +620,7 @@ fn exec_op(w: &mut World, ws: &[&str]) -> String {
         ["reload"] => match load_file(w) {
             Ok(r) => {
                 w.reg = r;
+                w.killed = w.file_stale;
                 "ok".into()
             }
             Err(_) => "err:load".into(),
@@ -642,6 +686,7 @@ struct OpInfo<'a> {
     pre: &'a (Vec<Snap>, Vec<Proc>),
     post: &'a (Vec<Snap>, Vec<Proc>),
     killed: bool,
+    file: &'a Result<NodeRegistry, String>,
 }
 
 fn oracle(w: &World, info: &OpInfo, history: &[String], out: &mut Out) {
@@ -737,7 +782,11 @@ fn oracle(w: &World, info: &OpInfo, history: &[String], out: &mut Out) {
     // observable and is never written by the oracle)
     let mut side = w.reg.clone();
     side.save_path = w.tmp.path().join("oracle-side.json");
-    match side.save().and_then(|_| NodeRegistry::load(&side.save_path)) {
+    let touches_registry = !matches!(info.ws.first().copied(), Some("kill") | Some("die-outside") | Some("restart-outside") | Some("flaky"));
+    if touches_registry {
+    // (same serialisation code as save/load — serde_json::to_string + NodeRegistry::from_json — without the disk; the
+    //  disk path itself is observed through the registry file above all)
+    match serde_json::to_string(&side).map_err(ant_service_management::Error::from).and_then(|j| NodeRegistry::from_json(&j)) {
         Ok(back) => {
             let a = serde_json::to_value(&side).expect("json");
             let b = serde_json::to_value(&back).expect("json");
@@ -747,9 +796,33 @@ fn oracle(w: &World, info: &OpInfo, history: &[String], out: &mut Out) {
         }
         Err(e) => out.oracle_fail("save-load-identity", &hist, &format!("save/load failed: {e}")),
     }
+    }
+    // ... and with every optional list / string field forced to Some(empty) resp. None: both must load back as
+    // they were saved (`None` and `Some([])` are different recorded states)
+    let run_variants = matches!(info.ws.first().copied(), Some("start") | Some("saveload") | Some("reload")) && !s1.is_empty();
+    for variant in [true, false].into_iter().filter(|_| run_variants) {
+        let mut v = w.reg.clone();
+        v.save_path = w.tmp.path().join("oracle-side.json");
+        v.environment_variables = if variant { Some(vec![]) } else { None };
+        for n in v.nodes.iter_mut() {
+            n.connected_peers = if variant { Some(vec![]) } else { None };
+            n.listen_addr = if variant { Some(vec![]) } else { None };
+            n.owner = if variant { Some(String::new()) } else { None };
+            n.user = if variant { Some(String::new()) } else { None };
+        }
+        match serde_json::to_string(&v).map_err(ant_service_management::Error::from).and_then(|j| NodeRegistry::from_json(&j)) {
+            Ok(back) => {
+                if serde_json::to_value(&v).expect("json") != serde_json::to_value(&back).expect("json") {
+                    let what = if variant { "Some(empty)" } else { "None" };
+                    out.oracle_fail("save-load-identity", &hist, &format!("registry with optional list/string fields set to {what} differs after save + load"));
+                }
+            }
+            Err(e) => out.oracle_fail("save-load-identity", &hist, &format!("save/load of the empty-fields variant failed: {e}")),
+        }
+    }
     // the registry FILE as left by the code under test (and by the harness where it plays the command that saves
     // after success)
-    match load_file(w) {
+    match info.file {
         Err(e) => out.oracle_fail("file-matches-memory", &hist, &format!("the registry file does not load: {e}")),
         Ok(file) => {
             // (a) every step that claims to have saved: file == memory. `add_node` claims it for every service it
@@ -796,16 +869,18 @@ fn oracle(w: &World, info: &OpInfo, history: &[String], out: &mut Out) {
 struct Runner {
     world: World,
     history: Vec<String>,
+    rt: std::rc::Rc<tokio::runtime::Runtime>,
 }
 impl Runner {
     fn new() -> Self {
-        Runner { world: World::new(), history: vec![] }
+        let rt = std::rc::Rc::new(tokio::runtime::Builder::new_current_thread().enable_all().build().expect("rt"));
+        Runner { world: World::new(rt.clone()), history: vec![], rt }
     }
     /// returns (output line, fallible calls made)
     fn run_line(&mut self, line: &str, out: Option<&mut Out>) -> (String, usize) {
         let ws: Vec<&str> = line.split_whitespace().collect();
         if ws.as_slice() == ["reset"] {
-            self.world = World::new();
+            self.world = World::new(self.rt.clone());
             self.history = vec![line.to_string()];
             return ("ok".into(), 0);
         }
@@ -828,13 +903,26 @@ impl Runner {
         let result = catch_unwind(AssertUnwindSafe(|| exec_op(w, &ws))).unwrap_or_else(|_| "panic".into());
         let calls = self.world.os.lock().unwrap().calls;
         let post = snapshot(&self.world);
+        let saved_by_caller = match ws.first().copied() {
+            Some("add") | Some("start") | Some("stop") | Some("remove") | Some("saveload") => result.starts_with("ok"),
+            Some("upgrade") => result != "err:no-such-service" && result != "bad-op",
+            _ => false,
+        };
+        if saved_by_caller && !self.world.killed {
+            self.world.file_stale = false;
+        }
+        if out.is_none() {
+            // dry run of the generator (only the number of fallible calls is needed)
+            return (String::new(), calls);
+        }
+        let file = load_file(&self.world);
         if let Some(out) = out {
-            let info = OpInfo { ws: &ws, result: &result, calls, pre: &pre, post: &post, killed: self.world.killed };
+            let info = OpInfo { ws: &ws, result: &result, calls, pre: &pre, post: &post, killed: self.world.killed, file: &file };
             oracle(&self.world, &info, &self.history, out);
             let class = result.split(':').take(2).collect::<Vec<_>>().join(":");
             out.count(&format!("{}:{}", ws.first().unwrap_or(&""), class));
         }
-        (format!("{result} calls={calls} | {}", dump(&self.world)), calls)
+        (format!("{result} calls={calls} | {}", dump(&self.world, &file)), calls)
     }
 }
 
@@ -860,6 +948,7 @@ fn alphabet(nsvc: usize, rich: bool) -> Vec<String> {
         v.push(format!("remove {i} keep=1"));
         v.push(format!("upgrade {i} force=0 start=1 ver=2 ct=0"));
         v.push(format!("kill {i}"));
+        v.push(format!("restart-outside {i}"));
         if rich {
             v.push(format!("start {i} ct=1"));
             v.push(format!("upgrade {i} force=1 start=0 ver=0 ct=0"));
@@ -916,7 +1005,7 @@ fn random_op(rng: &mut Rng, nsvc: usize) -> String {
         8..=9 => format!("remove {i} keep={}", rng.below(2)),
         10..=12 => format!("upgrade {i} force={} start={} ver={} ct={}", rng.below(2), rng.below(2), rng.below(3), rng.below(2)),
         13..=14 => "refresh".into(),
-        15 => format!("kill {i}"),
+        15 => if rng.chance(1, 2) { format!("kill {i}") } else { format!("restart-outside {i}") },
         16 => format!("flaky {i} {}", rng.below(2)),
         17 => if rng.chance(1, 2) { "saveload".into() } else { "reload".into() },
         _ => random_add(rng),
@@ -995,6 +1084,14 @@ fn generate(seed: u64, n: u64) -> Vec<String> {
         // service it installed; the next invocation starts from the file and must not hand out antnode1 again
         vec!["reset", "add count=3 np=- mp=- rp=- metrics=0 ver=1 faults=001", "reload", "add count=1 np=- mp=- rp=- metrics=0 ver=1 faults=-"],
         vec!["reset", "add count=2 np=- mp=- rp=- metrics=1 ver=1 faults=0001", "reload", "add count=2 np=- mp=- rp=- metrics=0 ver=1 faults=-", "reload", "start 0 ct=0 faults=-", "reload"],
+        // a running service restarted under a new pid behind the manager's back: the partial refresh every command
+        // runs first must record the pid the OS reports
+        vec!["reset", "add count=1 np=- mp=- rp=- metrics=0 ver=1 faults=-", "start 0 ct=0 faults=-", "restart-outside 0", "refresh", "stop 0 faults=-"],
+        vec!["reset", "add count=2 np=- mp=- rp=- metrics=0 ver=1 faults=-", "start 1 ct=0 faults=-", "start 0 ct=0 faults=-", "restart-outside 1", "die-outside 0", "refresh", "reload", "refresh"],
+        // full refresh (as `antctl status` calls it): stops at the first live service because no node RPC is served
+        vec!["reset", "add count=2 np=- mp=- rp=- metrics=0 ver=1 faults=-", "start 1 ct=0 faults=-", "kill 1", "refresh-full", "start 1 ct=0 faults=-", "refresh-full"],
+        // zero / one / forty connected peers and an empty listener list (pids 100, 101, 102): saved and loaded back
+        vec!["reset", "add count=3 np=- mp=- rp=- metrics=0 ver=1 faults=-", "start 0 ct=0 faults=-", "start 1 ct=0 faults=-", "start 2 ct=0 faults=-", "reload", "stop 0 faults=-", "saveload"],
         // K-s-orphan: RPC failure after the process launched
         vec!["reset", "add count=1 np=- mp=- rp=- metrics=0 ver=1 faults=-", "start 0 ct=0 faults=01", "stop 0 faults=-"],
         vec!["reset", "add count=1 np=- mp=- rp=- metrics=0 ver=1 faults=-", "start 0 ct=0 faults=001", "remove 0 keep=1 faults=-", "refresh"],
@@ -1011,7 +1108,8 @@ fn generate(seed: u64, n: u64) -> Vec<String> {
     // exhaustive small scope: prefix add(1|2 services), then all op sequences up to depth d, all single-fault placements
     let depth = if thorough { 3 } else { 2 };
     for nsvc in 1..=2usize {
-        let alpha = alphabet(nsvc, false);
+        // (an outside restart needs a running process: it is part of the running-base family below)
+        let alpha: Vec<String> = alphabet(nsvc, false).into_iter().filter(|a| !a.starts_with("restart-outside")).collect();
         let prefix = format!("add count={nsvc} np=- mp=- rp=- metrics=0 ver=1");
         let mut seqs: Vec<Vec<String>> = vec![vec![]];
         for _ in 0..depth {
